@@ -114,7 +114,8 @@ def runFxCrash (c0 : Case) : Res :=
         (y, ps.filterMap (fun (d, t) => (parseRat? t).map (fun v => (⟨d, v⟩ : DailyRate)))))
       let envLater : Env := { cal := civil, today := later, force := false, remote := fun y => assocGet laterLists y }
       let pubLater := fun (d : Int) => pubOf civil envLater.remote d
-      let tags := ["nt=C14", s!"points={points.length}", s!"len={content.length}", s!"old={oldToday.isSome}",
+      let nRead := (c0.lines.filter (fun l => l.head? == some "impl" && l[1]? == some "read")).length
+      let tags := ["nt=C14", s!"prefixes={nRead}", s!"points={points.length}", s!"len={content.length}", s!"old={oldToday.isSome}",
                    s!"dates={dates.length}", s!"laterdays={later - today}"]
       if dates.length != refs.length || points.any (fun p => p.after.length != dates.length) then
         { verdict := "BADCASE", tags := tags, msg := "look-up counts do not match" }
@@ -148,7 +149,23 @@ def runFxCrash (c0 : Case) : Res :=
             if lkSame true o (lkOfModel m.1) && dl == m.2.downloads then none
             else some s!"crash at {p.label}: look-up {d} impl {o.render} dl={dl} model {(lkOfModel m.1).render} dl={m.2.downloads}")
           fsd ++ lks.take 2)
-      let diffs := dFull ++ dPts
+      -- the reader on every prefix of the file
+      let dRead := (c0.lines.filter (fun l => l.head? == some "impl" && l[1]? == some "read")).filterMap (fun l =>
+        match l with
+        | [_, _, n, tok] =>
+          match n.toNat? with
+          | none => some s!"bad read line {n}"
+          | some n =>
+            let want := parseFile civilDateText (content.take n)
+            let got : Option (List DailyRate) :=
+              if tok == "-" then some []
+              else (tok.splitOn ",").mapM (fun t => match t.splitOn ":" with
+                | [d, r] => do some (⟨← parseInt? d, ← parseRat? r⟩ : DailyRate)
+                | _ => none)
+            if got == some want then none
+            else some s!"reader on the first {n} bytes: impl {tok} model {want.map (fun r => s!"{r.date}:{ratToString r.rate}")}"
+        | _ => some "bad read line")
+      let diffs := dFull ++ dRead ++ dPts
       if !orc.isEmpty then
         { verdict := "ORACLE", tags := "of=C14" :: tags,
           msg := String.intercalate "; " (orc.take 3) ++ s!" ({orc.length} in all)" ++
